@@ -299,6 +299,7 @@ Judge(e) ==
       [] e.op = "parseany"          -> J_parseany(e)
       [] e.op = "fuzz_done"         -> "ok"
       [] e.op = "classify"          -> J_classify(e)
+      [] e.op = "protosweep"        -> IF e.accepted = <<>> THEN "ok" ELSE "header-with-non-zero-protocol-identifier-not-refused-as-not-modbus"
       [] e.op = "crc"               -> J_crc(e)
       [] e.op = "crcsweep"          -> J_crcsweep(e)
       [] e.op = "trailer"           -> J_trailer(e)
